@@ -421,7 +421,7 @@ func (a *TSSActor) byzSignature(e *Env, s tsstypes.Signing, sa tsstypes.SigningA
 	if err != nil {
 		return
 	}
-	kind := e.Ch.Intn("tss.byz.kind", 9)
+	kind := e.Ch.Intn("tss.byz.kind", 11)
 	signer := m.Acc
 	mid := am.MemberID
 	label := ""
@@ -493,6 +493,15 @@ func (a *TSSActor) byzSignature(e *Env, s tsstypes.Signing, sa tsstypes.SigningA
 		if err != nil {
 			return
 		}
+	case 9: // the correct share followed by extra bytes
+		label = "byz_sig_trailing_bytes"
+		sig = append(append([]byte{}, sig...), e.Ch.Bytes("tss.byz.trail", 1+e.Ch.Intn("tss.byz.trailn", 3))...)
+	case 10: // the correct share, delivered now and the same bytes once more (re-broadcast): the second one must be refused
+		label = "byz_sig_redelivered"
+		msg1 := tsstypes.NewMsgSubmitSignature(s.ID, mid, sig, signer.Addr.String())
+		e.Submit(signer, "submit_signature", &sigMeta{Msg: msg1, Kind: "honest", Attempt: sa.Attempt}, msg1)
+		key := fmt.Sprintf("%d/%d", s.ID, sa.Attempt)
+		m.done[key] = true
 	case 8: // the assigned R_i is kept but the share is made with the negated nonce: only the x-coordinate of R_i matches
 		label = "byz_sig_negated_nonce"
 		g, err1 := m.Store.GetGroup(s.GroupPubKey)
